@@ -1,7 +1,7 @@
 (* Lateral.v -- LATERAL joins and recursive common table expressions (Model/Query.v: lateral_rows,
    rec_loop, SrcLateral, SrcRec): what rows they yield, for every table and every derived query. *)
 From Coq Require Import ZArith List Bool Lia.
-Require Import Csvq.Model.Base Csvq.Model.Value Csvq.Model.Expr Csvq.Model.Key Csvq.Model.Query.
+Require Import Csvq.Model.Base Csvq.Model.Value Csvq.Model.Expr Csvq.Model.Key Csvq.Model.SortVal Csvq.Model.Query.
 Require Import Csvq.Proofs.Key Csvq.Proofs.Query.
 Import ListNotations.
 
@@ -369,4 +369,55 @@ Proof.
   unfold combine_rows. split; [apply dedup_pairwise|]. split.
   - intros x Hx. apply dedup_in in Hx. apply Hx.
   - intros x Hx. destruct (dedup_cover (row_key strict) l [] x Hx) as [H|H]; [discriminate|exact H].
+Qed.
+
+(* ---- SELECT DISTINCT, also over a grouped view ---------------------------------------------------------------- *)
+Lemma dedup_by_map {A B} (f : A -> B) (key : B -> list kform) (l : list A) : forall acc,
+  map f (dedup_by (fun a => key (f a)) l acc) = dedup_by key (map f l) acc.
+Proof.
+  induction l as [|x l IH]; intros acc; [reflexivity|].
+  cbn [dedup_by map]. destruct (seen (key (f x)) acc); [apply IH|]. cbn [map]. f_equal. apply IH.
+Qed.
+
+(* the DISTINCT step of eval_body: of the rows produced so far, the first one of every key, in order *)
+Lemma distinct_step strict (outs : list (row * row)) :
+  map snd (pick outs (distinct_idx (map (fun ro => row_key strict (snd ro)) outs))) =
+  dedup_by (row_key strict) (map snd outs) [].
+Proof.
+
+  etransitivity; [|exact (dedup_by_map snd (row_key strict) outs [])].
+  f_equal. exact (pick_distinct_idx (fun ro : row * row => row_key strict (snd ro)) outs).
+Qed.
+
+(* SELECT DISTINCT items FROM src [WHERE c] GROUP BY keys: one row per bucket as without DISTINCT, and of these rows
+   the first one of every key (which matters when not all the keys are selected) *)
+Theorem distinct_group_by_pipeline strict src wh keys items :
+  eval_query strict (Q (BSelect src wh (Some keys) None items true) [] None None) =
+  (do rows <- eval_query strict (Q (BSelect src wh (Some keys) None items false) [] None None);
+   Ok (dedup_by (row_key strict) rows [])).
+Proof.
+  change (eval_query strict (Q (BSelect src wh (Some keys) None items true) [] None None))
+    with (do rows <- eval_body strict (BSelect src wh (Some keys) None items true); apply_order_limit strict [] None None rows).
+  change (eval_query strict (Q (BSelect src wh (Some keys) None items false) [] None None))
+    with (do rows <- eval_body strict (BSelect src wh (Some keys) None items false); apply_order_limit strict [] None None rows).
+  change (eval_body strict (BSelect src wh (Some keys) None items true))
+    with (do rows <- eval_source strict src;
+          do rows1 <- (match wh with None => Ok rows | Some c => filter_rows c rows end);
+          do outs <- (do gs <- group_rows strict keys rows1;
+                      do gs1 <- Ok gs;
+                      mapM (fun g => do o <- mapM (eval_item strict g) items; Ok (hd [] g, o)) gs1);
+          Ok (pick outs (distinct_idx (map (fun ro => row_key strict (snd ro)) outs)))).
+  change (eval_body strict (BSelect src wh (Some keys) None items false))
+    with (do rows <- eval_source strict src;
+          do rows1 <- (match wh with None => Ok rows | Some c => filter_rows c rows end);
+          do outs <- (do gs <- group_rows strict keys rows1;
+                      do gs1 <- Ok gs;
+                      mapM (fun g => do o <- mapM (eval_item strict g) items; Ok (hd [] g, o)) gs1);
+          Ok outs).
+  destruct (eval_source strict src) as [rows|e]; cbn [bind]; [|reflexivity].
+  destruct (match wh with None => Ok rows | Some c => filter_rows c rows end) as [kept|e]; cbn [bind]; [|reflexivity].
+  destruct (group_rows strict keys kept) as [gs|e]; cbn [bind]; [|reflexivity].
+  destruct (mapM (fun g => do o <- mapM (eval_item strict g) items; Ok (hd [] g, o)) gs) as [outs|e]; cbn [bind]; [|reflexivity].
+  unfold apply_order_limit. cbn. unfold offset_rows. cbn.
+  f_equal. apply distinct_step.
 Qed.
